@@ -464,3 +464,38 @@ Proof.
   - intros a Ha. unfold upd1. destruct (Z.eqb_spec a app); [contradiction|reflexivity].
   - repeat split.
 Qed.
+
+Theorem redeem_invE c lc ec e from app denom amt e' : from <> VAULT -> from <> ESMA -> InvE c e ->
+  redeem lc ec e from app denom amt = Ok e' -> InvE c e' /\ (forall ext, InvE02 c ext e -> InvE02 c ext e').
+Proof.
+  intros Hfv Hfe I H.
+  destruct (redeem_spec lc ec e from app denom amt e' Hfe (ie_nodup _ _ I) (ie_nonneg _ _ I) H) as (r & tw & dec & w & R).
+  pose proof (re_books _ _ _ _ _ _ _ _ _ _ _ _ R) as B. pose proof (re_life _ _ _ _ _ _ _ _ _ _ _ _ R) as HL.
+  destruct (re_rest _ _ _ _ _ _ _ _ _ _ _ _ R) as (Rf & Rp & Rr & Rg).
+  assert (IL : InvL c (set_vs (el e) (vs (el e')))).
+  { apply (frame_step c (el e) _ (ie_life _ _ I)); try apply B. intros d.
+    rewrite (re_bal_other _ _ _ _ _ _ _ _ _ _ _ _ R VAULT d) by (try discriminate; congruence). rewrite (bk_unsol _ _ B). reflexivity. }
+  assert (Hpaid : forall d, 0 <= epaid e' d - epaid e d).
+  { intros d. rewrite (re_paid _ _ _ _ _ _ _ _ _ _ _ _ R d). apply wsum_nonneg. intros x Hx.
+    pose proof (re_pay_nonneg _ _ _ _ _ _ _ _ _ _ _ _ R x Hx). destruct (ar_asset x =? d); lia. }
+  pose proof (re_kc _ _ _ _ _ _ _ _ _ _ _ _ R) as Hkc.
+  split.
+  - constructor.
+    + rewrite HL. unfold set_edebt. exact (invL_regs c (el e) _ _ _ IL).
+    + rewrite HL. unfold set_edebt. destruct (ie_users _ _ I) as [U1 U2]. split; cbn [vs lks]; [rewrite (bk_vaults _ _ B); exact U1|exact U2].
+    + rewrite (kc_keys _ _ Hkc). exact (ie_nodup _ _ I).
+    + intros a Ha x Hx. destruct (Z.eq_dec a app) as [Ea|Hn]; [exfalso; rewrite Ea in Ha; exact (re_cool_app _ _ _ _ _ _ _ _ _ _ _ _ R Ha)|].
+      rewrite (re_cool _ _ _ _ _ _ _ _ _ _ _ _ R a Hn) in Ha. destruct (proj_in kc _ _ _ Hkc Hx) as (x0 & Hx0 & E).
+      pose proof (ie_cool _ _ I a Ha x0 Hx0). unfold kc in E. congruence.
+    + intros x Hx. destruct (proj_in kc _ _ _ Hkc Hx) as (x0 & Hx0 & E). pose proof (ie_roles _ _ I x0 Hx0) as Rk. unfold rec_ok in *. unfold kc in E.
+      replace (ar_coll x) with (ar_coll x0) by congruence. replace (ar_asset x) with (ar_asset x0) by congruence. exact Rk.
+    + intros d. rewrite (re_bal_esma _ _ _ _ _ _ _ _ _ _ _ _ R d), esm_coll_of, (re_coll _ _ _ _ _ _ _ _ _ _ _ _ R d), (ie_custody _ _ I d), esm_coll_of. reflexivity.
+    + intros d. rewrite esm_coll_of, (re_coll _ _ _ _ _ _ _ _ _ _ _ _ R d), Rp. pose proof (ie_pool _ _ I d) as P. rewrite esm_coll_of in P. lia.
+    + intros d. pose proof (ie_paid _ _ I d). specialize (Hpaid d). lia.
+    + exact (re_nonneg _ _ _ _ _ _ _ _ _ _ _ _ R).
+    + intros d. rewrite HL. unfold set_edebt. cbn [edebt]. rewrite esm_debt_of, (re_debt _ _ _ _ _ _ _ _ _ _ _ _ R d). unfold add1. rewrite (ie_debt _ _ I d), esm_debt_of.
+      unfold at1. destruct (d =? denom); lia.
+  - intros ext [J G]. split; [|rewrite Rg; exact G]. rewrite Rg, HL. unfold set_edebt. intros d. destruct (J d) as [J1 J2]. split; [|exact J2].
+    unfold recorded_d, debt_sum, lock_prin_d in *. cbn [vs lks edebt over]. rewrite (bk_vaults _ _ B), (bk_svaults _ _ B), (re_sup _ _ _ _ _ _ _ _ _ _ _ _ R d).
+    unfold add1, at1. destruct (d =? denom); lia.
+Qed.
